@@ -17,6 +17,7 @@ import os
 import random
 import re
 import shutil
+import subprocess
 import tempfile
 import time
 
@@ -75,6 +76,50 @@ def repl_eval(exprs, workdir, nproc=8, timeout=900):
             for i, r in zip(idx, res):
                 out[i] = r
     return out
+
+
+# ------------------------------------------------------------------------------- TLC, row by row
+
+class RowEval:
+    """spec/C03/RowEval.java: one TLC process that loads RowProbe.tla (the table) and evaluates Probe(i) for the
+    requested rows, catching TLC's evaluation errors per row."""
+
+    def __init__(self, specdir, workdir, tier, seed):
+        self.dir = os.path.join(workdir, "roweval")
+        V.copy_specs(specdir, self.dir)
+        with open(os.path.join(self.dir, "RowProbe.cfg"), "w") as f:
+            f.write(cfg_text(tier, seed, "INIT OInit\nNEXT ONext"))
+        rc, o = V.run(["javac", "-cp", V.TLA_JAR, "-d", ".", "RowEval.java"], cwd=self.dir, timeout=900)
+        if rc != 0:
+            raise V.Inconclusive("javac RowEval.java failed: %s" % o[-1500:])
+        self.log = open(os.path.join(self.dir, "out.txt"), "w")
+        self.proc = subprocess.Popen(["java", "-XX:+UseParallelGC", "-XX:ParallelGCThreads=2", "-XX:CICompilerCount=2", "-Xmx4g",
+                                      "-Xss64m", "-cp", ".:" + V.TLA_CP, "RowEval", ".", "RowProbe", "Probe"],
+                                     cwd=self.dir, stdin=subprocess.PIPE, stdout=self.log, stderr=subprocess.STDOUT, text=True)
+
+    def evaluate(self, ids, timeout):
+        """returns {id: (is_value, text)}"""
+        try:
+            self.proc.stdin.write("".join("%d\n" % i for i in ids))
+            self.proc.stdin.close()
+            self.proc.wait(timeout=timeout)
+        except subprocess.TimeoutExpired:
+            self.proc.kill()
+            raise V.Inconclusive("RowEval (TLC row-by-row evaluation) timed out")
+        except BrokenPipeError:
+            pass
+        self.log.close()
+        out = open(os.path.join(self.dir, "out.txt"), errors="replace").read()
+        res = {}
+        for m in re.finditer(r"^R (\d+) (VALUE|ERROR) (.*)$", out, re.M):
+            res[int(m.group(1))] = (m.group(2) == "VALUE", m.group(3)[:300])
+        if "DONE" not in out or len(res) < len(set(ids)):
+            raise V.Inconclusive("RowEval answered %d of %d rows: %s" % (len(res), len(set(ids)), out[-1500:]))
+        return res
+
+    def close(self):
+        if self.proc.poll() is None:
+            self.proc.kill()
 
 
 # ------------------------------------------------------------------------------- driver
@@ -201,8 +246,9 @@ def run(chk):
     # 1. design level: TLC enumerates the universe and the rows, evaluates every defined row
     with open(os.path.join(work, "MCOpsOracle.cfg"), "w") as f:
         f.write(cfg_text(tier, seed, "INIT OInit\nNEXT ONext\nINVARIANTS PrintCanonical DefinedHasValue\nCHECK_DEADLOCK FALSE"))
-    pool = concurrent.futures.ThreadPoolExecutor(max_workers=2)
+    pool = concurrent.futures.ThreadPoolExecutor(max_workers=5)
     build = pool.submit(V.build_driver, "c03drv", chk.bindir)
+    roweval = pool.submit(RowEval, specsrc, chk.tmp, tier, seed)   # loads the table in a second TLC process meanwhile
     res = V.tlc(work, "MCOpsOracle", cfg="MCOpsOracle.cfg", workers=1, timeout=1500 if quick else 3000,
                 deadlock=False, extra=["-nowarning"], heap="4g", jvm=JVM)
     chk.add_tlc("MCOpsOracle (%s): every defined row evaluated by TLC; PrintCanonical, DefinedHasValue" % tier, res)
@@ -236,29 +282,16 @@ def run(chk):
     if unsupported:
         raise V.Inconclusive("driver has no binding for rows %s" % unsupported[:5])
 
-    # 3. anchor "TLC reports an error" in TLC: REPL evaluation of predicted-error rows
-    #    (a seeded sample + every row on which the library returned a value) and of a sample of
-    #    defined rows (the row text must denote the value TLC computed in the table).
+    # 3. anchor "TLC reports an error" in TLC itself: every row the table predicts an error for is evaluated by
+    #    TLC's evaluator on its own (RowEval), the evaluation error caught per row.
     errs = [r for r in rows if not r["def"] and r["op"] not in NO_TLC_CONFIRM and r["id"] in results]
-    suspicious = [r for r in errs if results[r["id"]]["out"] == "value"]
-    per_key = {}
-    confirm = []
-    for r in suspicious:  # at most 6 confirmations per (op, cls)
-        k = (r["op"], r["cls"])
-        per_key[k] = per_key.get(k, 0) + 1
-        if per_key[k] <= 6:
-            confirm.append(r)
-    rest = [r for r in errs if results[r["id"]]["out"] != "value"]
-    n_err = 48 if quick else 400
-    n_def = 32 if quick else 300
-    sample_err = rnd.sample(rest, min(n_err, len(rest)))
-    defs = [r for r in rows if r["def"] and r["id"] in results and r["op"] not in ("SelectOOR",)]
-    sample_def = rnd.sample(defs, min(n_def, len(defs)))
-    def forced(t):  # self-equality makes TLC enumerate/normalise the value instead of printing it symbolically
-        return "LET zzv == (%s) IN IF zzv = zzv THEN zzv ELSE zzv" % t
-    exprs = [forced(r["txt"]) for r in confirm + sample_err] + \
-            ["(%s) = (%s)" % (r["txt"], fix_minint(r["exp"])) for r in sample_def]
-    repl = pool.submit(repl_eval, exprs, chk.tmp, 6 if quick else 12, 900 if quick else 2400)
+    probe = pool.submit(lambda: roweval.result().evaluate([r["id"] for r in errs], 1500 if quick else 4000))
+    # the TLA+ source text shown for a row (RowTxt/Txt, used in reports and replays) denotes the table's value:
+    # a seeded sample of defined rows is re-evaluated from its text in the TLC REPL
+    defs = [r for r in rows if r["def"] and r["id"] in results and r["op"] not in NO_TLC_CONFIRM]
+    sample_def = rnd.sample(defs, min(10 if quick else 80, len(defs)))
+    texts = pool.submit(repl_eval, ["(%s) = (%s)" % (r["txt"], fix_minint(r["exp"])) for r in sample_def], chk.tmp,
+                        1 if quick else 4, 900 if quick else 2400)
 
     # 4. TLC judges every recorded result
     entries = [dict(id=i, out=results[i]["out"], str=results[i].get("str", "")) for i in sorted(results)]
@@ -303,48 +336,35 @@ def run(chk):
         raise V.Inconclusive("no verdict for %d rows (first %s)" % (len(missing), missing[:5]))
 
     timing["judge_done_at"] = round(time.time() - t0, 1)
-    answers = repl.result()
-    timing["repl_done_at"] = round(time.time() - t0, 1)
-    tlc_error_confirmed, pessimistic = set(), []
-    unanswered = 0
-    for r, a in zip(confirm + sample_err, answers[:len(confirm) + len(sample_err)]):
-        if a is None:
-            unanswered += 1
-        elif a[0]:
-            pessimistic.append(r)   # TLC has a value although Def predicted an error: spec imprecision
-        else:
-            tlc_error_confirmed.add(r["id"])
-    bad_text = []
-    for r, a in zip(sample_def, answers[len(confirm) + len(sample_err):]):
-        if a is None:
-            unanswered += 1
-        elif not (a[0] and a[1] == "TRUE"):
-            bad_text.append((r["id"], r["txt"], a))
-    if unanswered > len(exprs) // 4:
-        raise V.Inconclusive("TLC REPL answered only %d of %d expressions" % (len(exprs) - unanswered, len(exprs)))
-    if bad_text:
-        raise V.Inconclusive("row text and table disagree inside TLC (spec inconsistency): %s" % bad_text[:3])
-    chk.notes["repl_error_rows_confirmed"] = len(tlc_error_confirmed)
-    chk.notes["repl_defined_rows_confirmed"] = len(sample_def)
-    for r in pessimistic:   # not judged: the table's prediction for this row is wrong
+    answers = probe.result()
+    timing["roweval_done_at"] = round(time.time() - t0, 1)
+    tlc_error_confirmed = {i for i, a in answers.items() if not a[0]}
+    pessimistic = [by_id[i] for i, a in answers.items() if a[0]]
+    chk.notes["predicted_error_rows_evaluated_one_by_one_in_tlc"] = len(answers)
+    chk.notes["tlc_error_confirmed_rows"] = len(tlc_error_confirmed)
+    chk.notes["tlc_error_messages"] = sorted({re.sub(r"[-0-9]+", "N", a[1])[:90] for a in answers.values() if not a[0]})[:25]
+    for r in pessimistic[:40]:   # not judged: the table's prediction for this row is wrong
         chk.drift.append({"spec": "OpsOracle.tla Def", "row": r["txt"],
                           "note": "TLC evaluates this row although Def predicts an error; row not judged"})
+    chk.notes["rows_with_pessimistic_def_not_judged"] = len(pessimistic)
+    for r in pessimistic:
         verdicts.pop(r["id"], None)
+    bad_text = [(r["txt"], a) for r, a in zip(sample_def, texts.result()) if a is not None and not (a[0] and a[1] == "TRUE")]
+    if bad_text:
+        raise V.Inconclusive("row text and table disagree inside TLC (spec inconsistency): %s" % bad_text[:3])
+    timing["text_check_done_at"] = round(time.time() - t0, 1)
 
     # 5. report
     counts = {}
     groups = {}
-    anchored = {(c["op"], c["cls"]) for c in confirm if c["id"] in tlc_error_confirmed}
     for i, v in verdicts.items():
         counts[v] = counts.get(v, 0) + 1
         if v in OK_VERDICTS:
             continue
         r = by_id[i]
-        if v == "VALUE_WHERE_ERROR" and r["op"] not in NO_TLC_CONFIRM and (r["op"], r["cls"]) not in anchored:
-            # never reported unless TLC itself was seen to fail on a row of this (operator, class)
-            chk.drift.append({"spec": "OpsOracle.tla Def", "row": r["txt"],
-                              "note": "library value on a predicted-error row, TLC error not confirmed; not judged"})
-            continue
+        if v in ("VALUE_WHERE_ERROR", "BOTH_LOUD", "PANIC_NOT_TLA_ERROR") and r["op"] not in NO_TLC_CONFIRM \
+                and i not in tlc_error_confirmed:
+            raise V.Inconclusive("row %d judged as a TLC-error row without TLC's error having been seen" % i)
         key = "C03:op=%s:args=%s:%s" % (r["op"] + ("/" + r["lam"] if r["lam"] else ""), r["cls"], CATEGORY[v])
         groups.setdefault(key, []).append(i)
     chk.traces = sum(counts.get(v, 0) for v in OK_VERDICTS)
@@ -354,7 +374,7 @@ def run(chk):
         ex = [dict(id=i, op=by_id[i]["op"], lam=by_id[i]["lam"], txt=by_id[i]["txt"], tlc=by_id[i]["exp"],
                    library=results[i]["out"] + (": " + results[i]["str"] if results[i]["out"] == "value" else
                                                 (": " + results[i].get("msg", "")[:120])),
-                   verdict=verdicts[i], tlc_error_seen_in_repl=(i in tlc_error_confirmed)) for i in ids[:6]]
+                   verdict=verdicts[i], tlc_error_seen=(i in tlc_error_confirmed)) for i in ids[:6]]
         what = "%d row(s), e.g. %s : TLC %s, library %s" % (len(ids), ex[0]["txt"], ex[0]["tlc"], ex[0]["library"])
         chk.violation(key, what, {"rows": ex, "count": len(ids)})
     agree = [i for i in sorted(verdicts) if verdicts[i] == "AGREE"]
@@ -368,8 +388,8 @@ def run(chk):
         "binding step: TLC evaluates the text the library result was printed as (harness/internal/c03val.Print walks the value "
         "through IsSet/AsSet/... of the public API) and compares TLC's own printed forms of both values; PrintCanonical "
         "(checked in the design-level run) justifies comparing printed forms",
-        "rows where TLC is predicted to fail are anchored by REPL evaluation of a seeded sample and of every (op, class) "
-        "on which the library returned a value",
+        "every row on which the table predicts a TLC error is evaluated on its own by TLC's evaluator (spec/C03/RowEval.java "
+        "drives tlc2.tool.impl.FastTool on RowProbe.tla) and the error is seen before the row is judged as an error row",
         "CHOOSE with several witnesses: any witness, equal for three insertion orders; ToString: the text must denote the value",
     ]
     chk.gaps += [
